@@ -1,4 +1,5 @@
 import WebPkg.Proofs.BundleWF
+import WebPkg.Proofs.CountingWriter
 /-
   C04 — Bundle writer output is a well-formed, canonical, self-consistent bundle.
   Model: Model/Bundle.lean writer (encoder.go, countingwriter.go after fix F11).
@@ -31,5 +32,20 @@ theorem variants_index_complete (es out : List IndexEntry) (h : entriesInPossibl
       (∃ first, es.head? = some first ∧ parseListOfStringLists first.variants = some variants) ∧
       numberOfPossibleKeys variants 1 = some num ∧ out.length = num :=
   Bundle.entriesInPossibleKeyOrder_spec es out h
+
+
+/-- `CountingWriter` (countingwriter.go): for every destination kind (implementing io.ReaderFrom, not implementing it,
+    failing after any number of bytes with a short write or with n = 0) and every sequence of `Write` / `ReadFrom`
+    calls -- the source delivered in chunks of any size --, `Written` equals the number of bytes the destination
+    accepted. -/
+theorem countingWriter_written_eq_received (k : CW.DestKind) (room : Nat) (ops : List CW.Op) :
+    (ops.foldl CW.step (CW.init k room)).written = (ops.foldl CW.step (CW.init k room)).received :=
+  CW.written_eq_received k room ops
+
+/-- and without a fault `ReadFrom` transfers the whole source, whatever the chunking -/
+theorem countingWriter_readFrom_complete (s : CW.State) (total chunk : Nat) (hk : s.kind ≠ .readerFrom)
+    (hf : ∀ b, s.kind ≠ .failing b) (hc : 0 < chunk) :
+    (CW.readFrom s total chunk).1 = total ∧ (CW.readFrom s total chunk).2.1 = false :=
+  CW.readFrom_complete s total chunk hk hf hc
 
 end WebPkg.C04
